@@ -364,3 +364,47 @@ func VerifC04Replay() {
 	verifrt.Assert(err != nil && len(sc.Out) == 0, "the replay gets no answer")
 	verifrt.Reach("end")
 }
+
+// VerifC03TrailingGarbage: S1 – a genuine client handshake followed by extra bytes is not a
+// valid handshake ("the client never sends trailing garbage"): the server stays silent, also
+// for the maximal handshake length where the mark still sits at the tail of the 8192-byte window.
+func VerifC03TrailingGarbage() {
+	verifrt.Ideal()
+	verifrt.SetClock(vNow)
+	maxPad := verifrt.Pick("max_pad", 0, 1) == 1
+	verifrt.OnIntn(func(n int) int {
+		if maxPad {
+			return n - 1
+		}
+		return 0
+	})
+	sf := vServerFactory()
+	clientKey, err := ntor.NewKeypair(true)
+	verifrt.Assume(err == nil)
+	hs := newClientHandshake(sf.nodeID, sf.identityKey.Public(), clientKey)
+	blob, err := hs.generateHandshake()
+	verifrt.Assume(err == nil)
+	k := []int{1, 5}[verifrt.Pick("garbage_len_class", 0, 1)]
+	in := append(append([]byte{}, blob...), verifrt.Bytes("garbage", k)...)
+	sc := verifrt.NewConn("srv", in)
+	sc.MaxChunks = 1
+	sc.EOFAtEnd = true
+	cuts := []int{0, len(blob) - 1, len(blob), 100}
+	if c := cuts[verifrt.Pick("cut", 0, len(cuts)-1)]; c > 0 {
+		sc.Cuts = []int{c}
+	}
+	srv := vServerConn(sf, sc)
+	serverKey, err := ntor.NewKeypair(true)
+	verifrt.Assume(err == nil)
+	err = srv.serverHandshake(sf, serverKey)
+	if sc.Unread() == 0 {
+		// the whole input (handshake + garbage) was seen by the parser
+		verifrt.Assert(err != nil, "a handshake with trailing garbage is refused")
+	}
+	if err != nil {
+		verifrt.Assert(len(sc.Out) == 0, "and nothing is sent")
+	} else {
+		verifrt.Reach("accepted before the garbage arrived")
+	}
+	verifrt.Reach("end")
+}
